@@ -1,7 +1,7 @@
 """C14 - subset and union retain exactly the referenced data and invert each other (structural clauses)."""
 from __future__ import annotations
 
-from . import scopes, lib_schema, lib_module, lib_py, lib_guards, lib_gate, lib_err
+from . import scopes, lib_schema, lib_module, lib_py, lib_guards, lib_gate, lib_err, lib_mem
 
 LEVEL = "other"
 EXPLANATION = ("Entry integrity gates on both operands, exact node-list / node-mapping guards, option plumbing with polarity and "
@@ -58,3 +58,4 @@ def run(ctx):
     body = tu.src(fn.body) + tu.src(P.need("tsk_table_collection_subset", "tables").body)
     for fl in ("TSK_UNION_NO_CHECK_SHARED", "TSK_UNION_NO_ADD_POP", "TSK_SUBSET_NO_CHANGE_POPULATIONS", "TSK_SUBSET_KEEP_UNREFERENCED"):
         ctx.ob(rule, "consumed|" + fl, len(re.findall(r"&\s*%s\b" % fl, body)) >= 1, tu.loc(fn.node), "%s is tested" % fl)
+    lib_mem.c_lints(ctx, ctx.program(), scopes.lib_scope("C14"))
